@@ -3,10 +3,19 @@
      forall universes of valid chains, all weight vectors, thresholds as accepted by SetBFTParameters and all validator-set
      changes: if < 1/3 of the weight is Byzantine and all other validators sign only non-contradicting headers, the finalized
      prefixes of any two views are comparable.
-   What is proved: the protocol-level safety theorem under quorum intersection (C01_safety_partial), whose premises are the
-   facts BFT/SafetyInst.v derives from the faithful vote model, and the two refutations of the unrestricted statement. *)
+   What is proved:
+   * C01_static_safety_decl / _one_third / _same_height_same_block: the property at full strength for every STATIC validator
+     set whose thresholds satisfy prevoteThr + precommitThr > W + f (in particular the default floor(2W/3)+1 with 3f < W),
+     derived from the faithful executable model of liskbft (BFT/Votes.v) with NO remaining premise: all fork trees (any
+     prefix-closed universe of valid chains), all Byzantine strategies of the validators in [byz], all weight vectors, chains
+     shorter and longer than the vote window;
+   * C01_examine_safe: the executable safety oracle used by the correspondence never reports a conflict under these hypotheses;
+   * C01_safety_partial: the protocol-level theorem for arbitrary block trees under quorum intersection (covers dynamic
+     validator sets under the explicit per-view QI premise);
+   * the two refutations of the unrestricted statement (thresholds as low as SetBFTParameters accepts; fork-dependent
+     validator-set changes): known findings. *)
 From Coq Require Import List NArith Bool Arith.
-From LE Require Import BFT.Contradiction BFT.Votes BFT.Universe BFT.Refuted BFT.SafetyAbstract.
+From LE Require Import BFT.Contradiction BFT.Votes BFT.Universe BFT.Refuted BFT.SafetyAbstract BFT.VotesGhost BFT.SafetyInst BFT.SafetyOracle.
 Import ListNotations.
 
 (* PARTIAL: extra premises = quorum intersection QI (the bound LIP-0058 needs: prevoteThr + precommitThr > W + f for the
@@ -56,3 +65,61 @@ Theorem C01_refuted_validator_change :
     vd_valid v = true /\ vd_static v = false /\ vd_hyp v = true /\ vd_safe v = false /\
     (c_pc c = total_weight (c_vals c) * 2 / 3 + 1)%N.
 Proof. exists chg_c, chg_K1, chg_K2. vm_compute. repeat split; reflexivity. Qed.
+
+(* ------------------------------------------------------------------ static validator sets: full strength, on the model *)
+(* Every notion is spelled out on the functions of BFT/Votes.v: a chain is valid ([valid_chain_decl]) iff no block carries a
+   parameter change, heights are consecutive from gh+1, every header satisfies the two BFT rules of block verification
+   ([bft_valid]) in the store obtained by [run_blocks] on the blocks before it, and [run_blocks] succeeds; the view of a chain is
+   the result of [run_blocks]; the block of height h of chain K is the history prefix [firstn (h - gh) K]; [honest U v]: any two
+   distinct blocks of the universe generated by v are non-contradicting. *)
+Theorem C01_static_safety_decl : forall (batch : nat) (gh : N) (c : pchange) (s0 : store) (U : chain -> Prop) (byz : list addr),
+  (0 < batch)%nat -> init_store batch gh c = Ok s0 ->
+  universe_decl batch gh s0 U ->
+  (forall v, In v (map fst (c_vals c)) -> ~ In v byz -> honest U v) ->
+  total_weight (sort_desc (c_vals c)) + wsum (sort_desc (c_vals c)) byz < c_pc c + (total_weight (c_vals c) * 2 / 3 + 1) ->
+  forall K1 K2 s1 s2 h1 h2, U K1 -> U K2 ->
+    run_blocks batch s0 K1 = Ok s1 -> run_blocks batch s0 K2 = Ok s2 ->
+    gh < h1 <= v_mhpc (s_votes s1) -> gh < h2 <= v_mhpc (s_votes s2) ->
+    prefix (firstn (N.to_nat (h1 - gh)) K1) (firstn (N.to_nat (h2 - gh)) K2) \/
+    prefix (firstn (N.to_nat (h2 - gh)) K2) (firstn (N.to_nat (h1 - gh)) K1).
+Proof. exact SafetyInst.C01_static_safety_decl. Qed.
+
+(* "< 1/3 of the weight misbehaves", default (or larger) precommit threshold *)
+Theorem C01_static_safety_one_third : forall (batch : nat) (gh : N) (c : pchange) (s0 : store) (U : chain -> Prop) (byz : list addr),
+  (0 < batch)%nat -> init_store batch gh c = Ok s0 ->
+  universe batch gh s0 U ->
+  (forall v, In v (map fst (c_vals c)) -> ~ In v byz -> honest U v) ->
+  3 * wsum (vals c) byz < total_weight (c_vals c) ->
+  total_weight (c_vals c) * 2 / 3 + 1 <= c_pc c ->
+  forall K1 K2 s1 s2 h1 h2, U K1 -> U K2 ->
+    view batch gh s0 K1 = Some s1 -> view batch gh s0 K2 = Some s2 ->
+    gh < h1 <= v_mhpc (s_votes s1) -> gh < h2 <= v_mhpc (s_votes s2) ->
+    prefix (blk gh K1 h1) (blk gh K2 h2) \/ prefix (blk gh K2 h2) (blk gh K1 h1).
+Proof. exact SafetyInst.C01_static_safety_one_third. Qed.
+
+(* no two views finalize different blocks at the same height *)
+Theorem C01_static_same_height_same_block : forall (batch : nat) (gh : N) (c : pchange) (s0 : store) (U : chain -> Prop) (byz : list addr),
+  (0 < batch)%nat -> init_store batch gh c = Ok s0 ->
+  universe batch gh s0 U ->
+  (forall v, In v (map fst (c_vals c)) -> ~ In v byz -> honest U v) ->
+  total_weight (vals c) + wsum (vals c) byz < p_pc (p0 c) + p_pv (p0 c) ->
+  forall K1 K2 s1 s2 h, U K1 -> U K2 ->
+    view batch gh s0 K1 = Some s1 -> view batch gh s0 K2 = Some s2 ->
+    gh < h -> h <= v_mhpc (s_votes s1) -> h <= v_mhpc (s_votes s2) ->
+    blk gh K1 h = blk gh K2 h.
+Proof. exact SafetyInst.C01_static_same_height_same_block. Qed.
+
+(* [view]/[valid_chain] used above are equivalent to the spelled-out notions *)
+Theorem C01_valid_chain_spec : forall batch, (0 < batch)%nat -> forall gh s0 K,
+  valid_chain batch gh s0 K <-> valid_chain_decl batch gh s0 K.
+Proof. exact valid_chain_spec. Qed.
+
+(* the executable safety oracle of the correspondence (BFT/Universe.v [examine], evaluated on the model AND applied to the
+   implementation's own views) never reports a conflict on a static two-chain universe satisfying the hypotheses *)
+Theorem C01_examine_safe : forall batch, (0 < batch)%nat -> forall gh c K1 K2,
+  NoDup (map fst (c_vals c)) ->
+  let v := examine batch gh c K1 K2 in
+  vd_valid v = true -> vd_static v = true -> vd_hyp v = true ->
+  total_weight (c_vals c) * 2 / 3 + 1 <= c_pc c ->
+  vd_safe v = true.
+Proof. exact examine_safe. Qed.
